@@ -16,6 +16,7 @@ package main
 
 import (
 	"fmt"
+	"os"
 	"sort"
 	"strconv"
 	"strings"
@@ -194,6 +195,9 @@ func absEvent(m rpccp.Message) string {
 		if err != nil {
 			return "G"
 		}
+		if !c.IsValid() {
+			return "C~"
+		}
 		toCaller := c.SendResultsTo().Which() == rpccp.Call_sendResultsTo_Which_caller
 		if !toCaller && !copyable(m) {
 			return "G"
@@ -210,6 +214,9 @@ func absEvent(m rpccp.Message) string {
 		r, err := m.Return()
 		if err != nil {
 			return "G"
+		}
+		if !r.IsValid() {
+			return "R~"
 		}
 		kind := "o"
 		switch r.Which() {
@@ -307,6 +314,12 @@ func absOutput(m rpccp.Message) string {
 			}
 			return fmt.Sprintf("Rr%d,%s", r.AnswerId(), absCaps(pl))
 		case rpccp.Return_Which_exception:
+			if os.Getenv("C06_DEBUG") != "" {
+				if e, err := r.Exception(); err == nil {
+					reason, _ := e.Reason()
+					fmt.Fprintf(os.Stderr, "exception for %d: %s\n", r.AnswerId(), reason)
+				}
+			}
 			return fmt.Sprintf("Rx%d", r.AnswerId())
 		}
 		return fmt.Sprintf("R?%d", r.AnswerId())
